@@ -1232,6 +1232,11 @@ var packMu sync.Mutex
 var zlibWriters = map[int]*zlib.Writer{}
 var lz4Small *lz4.Writer
 
+// detMarshal serialises maps in key order, so that the case list is a function of the seed only.
+func detMarshal(m proto.Message) ([]byte, error) {
+	return proto.MarshalOptions{Deterministic: true}.Marshal(m)
+}
+
 func zlibOf(b []byte, level int) []byte {
 	packMu.Lock()
 	defer packMu.Unlock()
@@ -1325,22 +1330,22 @@ func genHTTPCase(rng *rand.Rand) *httpCase {
 	case k < 7:
 		kind = "valid"
 		if isEvent {
-			msg, _ = proto.Marshal(randEventMessage(rng))
+			msg, _ = detMarshal(randEventMessage(rng))
 		} else {
-			msg, _ = proto.Marshal(randRawMessage(rng))
+			msg, _ = detMarshal(randRawMessage(rng))
 		}
 	case k < 9: // the other endpoint's message
 		kind = "other-message"
 		if isEvent {
-			msg, _ = proto.Marshal(randRawMessage(rng))
+			msg, _ = detMarshal(randRawMessage(rng))
 		} else {
-			msg, _ = proto.Marshal(randEventMessage(rng))
+			msg, _ = detMarshal(randEventMessage(rng))
 		}
 	case k < 12:
 		if isEvent {
-			msg, _ = proto.Marshal(randEventMessage(rng))
+			msg, _ = detMarshal(randEventMessage(rng))
 		} else {
-			msg, _ = proto.Marshal(randRawMessage(rng))
+			msg, _ = detMarshal(randRawMessage(rng))
 		}
 		var how string
 		how, msg = corrupt(rng, msg)
@@ -1545,7 +1550,7 @@ func (c *httpChecker) serve(idx int, hc *httpCase, over bool) {
 
 func (c *httpChecker) sentinel(idx int) {
 	v := int64(idx + 1)
-	msg, _ := proto.Marshal(&pb.RawMessageV2{Counters: map[string]*pb.CounterTagV2{"verif.http.sentinel": {TagMap: map[string]*pb.RawCounterV2{"": {Value: v}}}}})
+	msg, _ := detMarshal(&pb.RawMessageV2{Counters: map[string]*pb.CounterTagV2{"verif.http.sentinel": {TagMap: map[string]*pb.RawCounterV2{"": {Value: v}}}}})
 	hc := &httpCase{kind: "sentinel/zlib", method: "POST", path: "/v2/raw", encoding: strp("deflate"), body: zlibOf(msg, zlib.DefaultCompression)}
 	c.serve(idx, hc, idx%500 == 0)
 	c.h.mu.Lock()
@@ -1555,7 +1560,7 @@ func (c *httpChecker) sentinel(idx int) {
 		c.r.Violation("http-sentinel-not-processed", fmt.Sprintf("valid request after case %d: handler saw sentinel %d, want %d", idx, got, v), hc.replay(idx))
 	}
 	title := fmt.Sprintf("sentinel-%d", idx)
-	emsg, _ := proto.Marshal(&pb.EventV2{Title: title})
+	emsg, _ := detMarshal(&pb.EventV2{Title: title})
 	he := &httpCase{kind: "sentinel/lz4", method: "POST", path: "/v2/event", encoding: strp("lz4"), body: lz4Of(emsg)}
 	c.serve(idx, he, false)
 	c.h.mu.Lock()
